@@ -16,13 +16,47 @@ PROPERTY = 'C04'
 LEVEL = 'exploration'
 
 
-def make_ds(n, chain):
+# datasets obtained by slicing a larger one (ClientDataset.__getitem__): (size of the larger dataset, slices applied in turn)
+VIAS = {
+    'step2': (5, [(None, None, 2)]), 'step2_odd': (6, [(1, None, 2)]), 'step3': (7, [(None, None, 3)]),
+    'rev': (5, [(None, None, -1)]), 'rev2': (5, [(None, None, -2)]), 'span3_step2': (4, [(1, 4, 2)]),
+    'mid': (7, [(2, 6, None)]), 'tail': (6, [(-3, None, None)]), 'nested': (9, [(None, None, 2), (1, None, None)]),
+    'nested_step': (11, [(1, None, 2), (None, None, 2)]), 'one_of_two': (2, [(None, None, 2)]),
+    'one_of_three': (3, [(1, None, 3)]),
+}
+
+
+def via_len(via):
+  big, slices = VIAS[via]
+  pos = np.arange(big)
+  for sl in slices:
+    pos = pos[slice(*sl)]
+  return len(pos)
+
+
+def make_ds(n, chain, via=None):
   import fedjax
   from fedjax.core import client_datasets as cds
-  raw = {'i': np.arange(n, dtype=np.int32), 'f': (np.arange(n, dtype=np.float32) * 0.5 + 1).reshape(n, 1)}
   fns = []
   if chain:
     fns = [lambda x: {**x, 'z': x['i'] * 2 + 1}]
+  if via:
+    # the selected rows carry i = 0..n-1 in selection order, every other row of the larger dataset carries -1
+    big, slices = VIAS[via]
+    pos = np.arange(big)
+    for sl in slices:
+      pos = pos[slice(*sl)]
+    bi = np.full(big, -1, np.int32)
+    bi[pos] = np.arange(len(pos), dtype=np.int32)
+    ds = fedjax.ClientDataset({'i': bi, 'f': (bi.astype(np.float32) * 0.5 + 1).reshape(big, 1)}, cds.BatchPreprocessor(fns))
+    for sl in slices:
+      ds = ds[slice(*sl)]
+    n = len(pos)
+    require(len(ds) == n, 'len() of a sliced dataset differs from the number of rows it holds', n, len(ds))
+    held = np.asarray(ds.all_examples()['i']).tolist()
+    require(held == list(range(n)), 'a sliced dataset does not hold the selected rows in order', list(range(n)), held)
+    return ds, None
+  raw = {'i': np.arange(n, dtype=np.int32), 'f': (np.arange(n, dtype=np.float32) * 0.5 + 1).reshape(n, 1)}
   return fedjax.ClientDataset(raw, cds.BatchPreprocessor(fns)), raw
 
 
@@ -154,7 +188,7 @@ def seeded(case):
   ep, st, drop, skip, chain = case['epochs'], case['steps'], case['drop'], case['skip'], case.get('chain', False)
   want = ref.shuffle_num_steps(n, b, ep, st, drop)
   k = horizon(n, b, want)
-  ds, _ = make_ds(n, chain)
+  ds, _ = make_ds(n, chain, case.get('via'))
   streams = {}
   evals = 0
   seam_missed = []
@@ -255,7 +289,64 @@ def interleave(case):
   return {'evals': 3, 'nontrivial': case['epochs'] > 1, 'outcome': [alone1[:2], alone2[:2]]}
 
 
-SUBS = {'interleave': interleave, 'scripted': scripted, 'seeded': seeded}
+ROUTE_DOMAIN = {'batch_size': [2, 3], 'num_epochs': [None, 1, 2], 'num_steps': [None, 1, 4],
+                'drop_remainder': [False, True], 'seed': [3, 5], 'skip_shuffle': [False, True]}
+
+
+def routes_case(case):
+  """One effective hyper-parameter assignment expressed along every invocation route (kwargs / object / object +
+  keyword overrides, including overrides to None and back to a default): same seeded batches as the plain object route
+  (which 'seeded' judges), and the documented count."""
+  from fedjax.core import client_datasets as cds
+  from mc import routes
+  n, eff = case['N'], case['effective']
+  ds, _ = make_ds(n, False)
+  want_n = ref.shuffle_num_steps(n, eff['batch_size'], eff['num_epochs'], eff['num_steps'], eff['drop_remainder'])
+  k = horizon(n, eff['batch_size'], want_n)
+  want = [np.asarray(b['i']).tolist() for b in take(ds.shuffle_repeat_batch(cds.ShuffleRepeatBatchHParams(**eff)), k,
+                                                    want_n is None)]
+  if want_n is not None:
+    require(len(want) == want_n, 'object route: number of batches differs from the documented count', want_n, len(want))
+  evals = 0
+  for label, base, over in routes.routes(eff, ROUTE_DOMAIN, max_diff=case.get('max_diff')):
+    if 'route' in case and case['route'] != [label, base, over]:
+      continue
+    got = [np.asarray(b['i']).tolist() for b in take(routes.invoke(ds.shuffle_repeat_batch, cds.ShuffleRepeatBatchHParams,
+                                                                   base, over), k, want_n is None)]
+    require(got == want, 'invocation route %s (base %r, overrides %r) does not give the batches of the effective '
+            'hyper-parameters' % (label, base, over), want[:6], got[:6], case=dict(case, route=[label, base, over]))
+    evals += 1
+  return {'evals': evals, 'nontrivial': True, 'outcome': [len(want), want[:2]]}
+
+
+def seeded_streams(arg):
+  """Index streams of seeded views for a list of configurations (parent and child interpreters)."""
+  out = []
+  for n, b, ep, st, drop, seed, via in arg['configs']:
+    ds, _ = make_ds(n, False, via)
+    want = ref.shuffle_num_steps(len(ds), b, ep, st, drop)
+    k = horizon(len(ds), b, want)
+    v = ds.shuffle_repeat_batch(batch_size=b, num_epochs=ep, num_steps=st, drop_remainder=drop, seed=seed)
+    out.append([int(x) for bt in take(v, k, want is None) for x in np.asarray(bt['i'])])
+  return out
+
+
+def other_process(case):
+  """'With a fixed seed repeated iteration yields identical batches' - also in another interpreter process (a resumed
+  experiment): every listed PYTHONHASHSEED runs the same seeded configurations."""
+  from mc import child
+  here = seeded_streams({'configs': case['configs']})
+  evals = 0
+  for hs in case['hashseeds']:
+    there = child.call('mc.checks.c04_shuffle_batching', 'seeded_streams', {'configs': case['configs']}, hs)
+    for cfg, a, b in zip(case['configs'], here, there):
+      require(a == b, 'the seeded batch stream differs between two interpreter processes (PYTHONHASHSEED=%s)' % hs, a[:12], b[:12],
+              case=dict(case, configs=[cfg], hashseeds=[hs]))
+      evals += 1
+  return {'evals': evals, 'nontrivial': True, 'outcome': [len(case['configs']), case['hashseeds']]}
+
+
+SUBS = {'other_process': other_process, 'interleave': interleave, 'scripted': scripted, 'seeded': seeded, 'routes': routes_case}
 
 
 def configs(ns, bs, epochs, steps):
@@ -272,7 +363,9 @@ def plan(ctx):
   ctx.rule = ('scripted: every (N<=4, B, num_epochs, num_steps, drop_remainder, skip_shuffle) x every sequence of '
               'permutations the RNG can answer for the first refills; seeded: N<=8 x B<=10 x all hparams x seed set '
               'with the real RandomState behind a recording seam; distinct = configuration tuple; non-trivial = '
-              'N mod B != 0 or B > N (a batch straddles a refill)')
+              'N mod B != 0 or B > N (a batch straddles a refill); routes: every effective assignment over a '
+              '2x3x3x2x2x2 value domain x every (base object, keyword overrides) pair expressing it (quick: bases '
+              'differing in at most 2 fields)')
   ctx.assumptions += ['infinite streams (num_epochs=None and num_steps=None) are cut after 3*ceil(N/B)+2 batches',
                       'RandomState.shuffle answers some permutation (all of them are enumerated for N<=4)']
   ctx.run('interleave', [{'N1': n1, 'N2': n2, 'B': b, 'epochs': ep, 'seed1': s1, 'seed2': s1 + 1}
@@ -297,6 +390,19 @@ def plan(ctx):
     for skip in (False, True):
       se.append({'N': n, 'B': b, 'epochs': ep, 'steps': st, 'drop': drop, 'skip': skip, 'seeds': seeds,
                  'chain': n % 2 == 1})
+  # the same streams over datasets that were obtained by slicing a larger dataset (stepped, reversed, nested slices)
+  for via in VIAS:
+    for _, b, ep, st, drop in configs([0], [1, 2, 3, 4], [None, 1, 2], [None, 2, 5] if th else [None, 5], ):
+      for skip in (False, True):
+        se.append({'N': via_len(via), 'via': via, 'B': b, 'epochs': ep, 'steps': st, 'drop': drop, 'skip': skip,
+                   'seeds': seeds[:3], 'chain': b % 2 == 1})
   ctx.pmap('seeded', se, chunk=64)
+  cfgs = [[n, b, ep, st, False, seed, via] for n, via in ((5, None), (8, None), (3, 'step2'), (3, 'rev2'))
+          for b in (2, 3) for ep, st in ((2, None), (None, 5)) for seed in (0, 3)]
+  ctx.pmap('other_process', [{'configs': cfgs, 'hashseeds': [hs]} for hs in ((1, 2, 3, 12345) if th else (1, 2))], chunk=1)
+  from mc import routes as _routes
+  ctx.pmap('routes', [{'N': n, 'effective': eff, 'max_diff': None if th else 2} for n in ((4, 5) if th else (5,))
+                      for eff in _routes.assignments(ROUTE_DOMAIN)
+                      if not (eff['num_epochs'] is None and eff['num_steps'] is None and eff['drop_remainder'])], chunk=8)
   ctx.extra['bounds'] = {'scripted_N': [1, 4], 'seeded_N': [1, 12 if th else 8], 'seeds': len(seeds),
                          'epochs': [str(e) for e in epochs], 'steps': [str(s) for s in steps]}
